@@ -229,10 +229,21 @@ Qed.
 (* non-vacuity: the racing schedule in which a forget drops the last previous reference between
    a lookup's probe and its compare-exchange *)
 Definition ex_progs : nat -> list cop := fun t => match t with O => [CLookup] | S O => [CForget 1] | _ => [] end.
-Definition ex_sched : list nat := [0; 1; 0; 1; 0; 0; 0]%nat.
+Definition ex_sched : list nat := [0; 1; 0; 1; 1; 0; 0; 0]%nat.
 Lemma ex_race :
   match run_sched (cinit 1 ex_progs) ex_sched with
-  | Some (tr, s) => tr = [0; 4; 1; 9; 0; 3; 9] /\ rc_now s = 1 /\ ngen s = 2%nat /\ rcs s 0%nat = 0 /\
+  | Some (tr, s) => tr = [0; 4; 1; 5; 9; 0; 3; 9] /\ rc_now s = 1 /\ ngen s = 2%nat /\ rcs s 0%nat = 0 /\
+                    ldone s = 1 /\ fnom s = 1 /\ fdec s = 1
+  | None => False
+  end.
+Proof. vm_compute. intuition reflexivity. Qed.
+
+(* the compare-exchange of a forget fails because a lookup's compare-exchange got in between its
+   load and its compare-exchange (the forget holds the write lock throughout); it reloads and succeeds *)
+Definition ex_retry_sched : list nat := [0; 0; 0; 1; 1; 0; 1; 1]%nat.
+Lemma ex_retry :
+  match run_sched (cinit 1 ex_progs) ex_retry_sched with
+  | Some (tr, s) => tr = [0; 1; 2; 4; 5; 9; 5; 9] /\ rc_now s = 1 /\ ngen s = 1%nat /\
                     ldone s = 1 /\ fnom s = 1 /\ fdec s = 1
   | None => False
   end.
